@@ -34,8 +34,16 @@ Renamed(fails) == {IF f = "C09.exists" THEN "C10.equal.exists"
                    ELSE IF f = "C09.identity" THEN "C10.equal.identity"
                    ELSE "C10.equal.expiry" : f \in fails}
 
+(* a registered, present server that holds placement is part of the model the   *)
+(* new master loads (it cannot keep an instance on a server it does not load)   *)
+ServersLoaded(line) ==
+  ("loadable" \in DOMAIN line.prestore) =>
+    \A s \in SetOf(line.prestore.loadable) \cap DOMAIN line.prestore.presence :
+      (s \in DOMAIN line.prestore.placement /\ DOMAIN line.prestore.placement[s].apps # {})
+        => s \in DOMAIN line.loaded.servers
+
 Restarted(line) == LET pre == CanonStore(line.prestore) ld == CanonModel(line.loaded) IN
-  F("C11.kept", C11kept(pre, ld)) \cup F("C11.identity", C11identity(pre, ld))
+  F("C11.kept", C11kept(pre, ld) /\ ServersLoaded(line)) \cup F("C11.identity", C11identity(pre, ld))
   \cup F("C11.expiry", C11expiry(pre, ld)) \cup F("C11.nothingNew", C11nothingNew(pre, ld))
 
 (* C08 across a fail-over: an instance recorded under a server that is DOWN    *)
